@@ -223,3 +223,26 @@ PROPS["C10"] = {
     "sanitizers": [{"kind": "miri", "engine": "codec", "args": ["--scale", "0.002", "--threads", "1"], "timeout_s": 3600}],
     "assumptions": ["mutations touch header fields only", "behaviour after the first Err is not examined", "a hang inside one decode call shows only as a watchdog exit (inconclusive)"],
 }
+
+PROPS["C09"] = {
+    "title": "Recon text is a faithful and stable encoding, however it is chunked",
+    "level": "exploration",
+    "design_ref": "DESIGN.md §3 C09",
+    "technique": "runtime monitoring of the real printers, one-shot parser and incremental decoders: exact round-trip oracles over generated typed values, model values and mutated texts; every single cut position per input plus multi-cuts; robustness (no panic, bounded decode calls, resynchronisation after a bad frame); Miri (tree borrows) on a reduced set",
+    "text": "The three Recon printers, parse_recognize, RecognizerDecoder and WithLenRecognizerDecoder are run on about 40k generated inputs per quick run (2M thorough): 33 typed (built-in and derived) types must round-trip through all printers; every model value the parser itself produced must come back exactly (floats by bits) through all printers and arbitrary values must reach a fixed point; the incremental decoders fed the same bytes cut at every single position (including inside the length header and inside multi-byte characters), one byte at a time and at random multi-cuts must give exactly the one-shot result; byte-mutated input (including invalid UTF-8) must never panic, must finish within a bounded number of decode calls and must not corrupt the following well-formed frame. The form engine's printer-faithfulness observations are recorded under this property as well.",
+    "note": "Trusted base: the generators and the greedy shrinker (a shrunk candidate only counts as parser-produced when the real parser maps its explicit rendering to exactly that value); the one-shot parser is the reference for chunking. A hang inside one call shows only as the runner's watchdog (inconclusive). Depth limited to 64 as the property says (200/1000 only as an opt-in probe).",
+    "runs": [{"engine": "recon"}],
+    "sanitizers": [{"kind": "miri", "engine": "recon", "args": ["--scale", "0.002", "--threads", "1"], "timeout_s": 5400}],
+    "assumptions": ["finite floats for typed values", "generated grammar and byte mutations cover the tokenizer branches"],
+}
+
+PROPS["C15"] = {
+    "title": "Comparing and hashing Recon text agrees with comparing parsed values",
+    "level": "exploration",
+    "design_ref": "DESIGN.md §3 C15",
+    "technique": "metamorphic pair generation (reformattings, near misses, invalid texts) plus bounded-exhaustive token enumeration, judged by the real parser + Value equality",
+    "text": "compare_recon_values, recon_hash and ReconKey Eq/Hash (the key used by back-pressure relief) are checked against parse_recognize::<Value> + Value == on about 190k generated pairs per quick run (19M thorough): canonical renderings vs 26 formatting variants and the three printers, near-miss edits, invalid texts (comparison must be string equality), all ordered pairs of 182 hand-written spellings, and all 88k valid strings of at most 6 tokens over an 11-token alphabet pairwise inside value classes and same-leaf-sequence buckets. Both directions are decided: equal values must compare equal and hash equally; different values must not compare equal.",
+    "note": "Trusted base: equality and validity come only from the real parser; Value's own cross-kind equality rules are inherited (C19).",
+    "runs": [{"engine": "recon"}],
+    "assumptions": ["the enumeration alphabet has 11 tokens; longer interactions are sampled"],
+}
